@@ -291,6 +291,8 @@ def variants(prog, opts, rng):
         for w in ("closed", "active"):
             out.append({"mode": "ovprobe", "sels": [{"focus": dv, "ctx": []}], "supply": 561, "warm": f"{w}:{other}"})
             out.append({"mode": "probe", "sels": [{"focus": dv, "ctx": []}], "warm": f"{w}:{other}"})
+        # a conditional override: it supplies during the first call and declines during the second (same probe, still active)
+        out.append({"mode": "ovseq", "sels": [{"focus": dv, "ctx": []}], "supply": 564})
         if prog["decl"].get("tag"):
             # the declared variable reached through its tag only ($v:@T, *:@T), supplying or not
             cat = "$v:@" + prog["decl"]["tag"]
@@ -301,6 +303,10 @@ def variants(prog, opts, rng):
         if "var2" in prog["decl"]:
             out.append({"mode": "tweak", "sels": [{"focus": prog["decl"]["var2"], "ctx": []}], "supply": 558})
             out.append({"mode": "tweak2", "sels": [{"focus": dv, "ctx": []}, {"focus": prog["decl"]["var2"], "ctx": []}], "supply": 559})
+    if "supply" in vs and prog.get("cat") and not (prog.get("decl") or {}).get("var"):
+        # a tag-only selector on a function that also reads an undefined global: the global is none of its business
+        out.append({"mode": "catplain", "sels": [{"focus": "$v:@" + prog["cat"], "ctx": []}]})
+        out.append({"mode": "catplain", "sels": [{"focus": "*:@" + prog["cat"], "ctx": []}]})
     if "meta" in vs:
         loopvars = sorted({n for s in I.walk(prog["body"]) if s["s"] == "for" for n in I.target_names(s["t"])})
         metas = ["#enter", "#exit", "#value", "#error", "#yield", "#receive"] + [f"#loop_{v}" for v in loopvars] + [f"#endloop_{v}" for v in loopvars]
@@ -410,6 +416,16 @@ def _run_variant(runner, var, script, mod, fn, rec):
             p.override(var["supply"])
             with p:
                 rec["log"], rec["result"] = runner.call(mod, fn, script)
+        elif var["mode"] == "ovseq":
+            env = {runner.name: fn}
+            state = {"on": True}
+            p = probing(sel_text(runner.name, var["sels"][0]), env=env, overridable=True)
+            p.filter(lambda data: state["on"]).override(var["supply"])
+            with p:
+                log1, res1 = runner.call(mod, fn, script)
+                state["on"] = False
+                log2, res2 = runner.call(mod, fn, script)
+            return [dict(rec, mode="ovseq1", log=log1, result=res1), dict(rec, mode="ovseq2", log=log2, result=res2)]
         elif var["mode"] == "catplain":
             env = {runner.name: fn}
             p = probing(sel_text(runner.name, var["sels"][0]), env=env, raw=True)
@@ -485,7 +501,10 @@ def main():
                     plog, pres = runner.call(mod, getattr(mod, runner.name), script)
                 except (rt2.NeedDecision, rt2.BadScript) as ex:
                     plog, pres = [], ["diverged", type(ex).__name__, ""]
-                runs = [run_variant(runner, v, script) for v in vars_]
+                runs = []
+                for v in vars_:
+                    r = run_variant(runner, v, script)
+                    runs.extend(r if isinstance(r, list) else [r])
                 tid += 1
                 out.append({"id": tid, "pid": prog["id"], "form": prog["form"], "ctx": prog["ctx"], "family": prog["family"],
                             "features": I.features(prog), "names": I.local_names(prog), "gen": bool(prog.get("gen")),
